@@ -490,11 +490,138 @@ theorem store_on_array_strictly_increasing (bucket : Nat) (hb : 0 < bucket) (cs 
   obtain ⟨a', hok, ha, _, _⟩ := batchAddD_refines cs (DynArray.new bucket 6 none) [] hinv rfl (by rw [habs]; rfl)
   exact ⟨a', Store.batchAdd [] cs, hok, ha, store_strictly_increasing cs⟩
 
+open Jesse.StoreD StoreArray in
+theorem appendMultiple_keeps_dropAt (a a' : DynArray) (rs : List Row) (h : a.appendMultiple rs = .ok a') :
+    a'.dropAt = a.dropAt := by
+  unfold DynArray.appendMultiple at h
+  split at h
+  · exact absurd h (by simp)
+  · dsimp only at h; injection h with h; rw [← h]
+
+open Jesse.StoreD StoreArray in
+theorem setSlice_keeps_dropAt (a a' : DynArray) (s e : Option Int) (rs : List Row) (h : a.setSlice s e rs = .ok a') :
+    a'.dropAt = a.dropAt := by
+  unfold DynArray.setSlice at h
+  dsimp only at h
+  split at h
+  · injection h with h; rw [← h]
+  · exact absurd h (by simp)
+
+open Jesse.StoreD StoreArray Jesse.DynArray in
+/-- `add_multiple_1m_candles` on the array = `addMultiple1m` on the list it holds — same result, same IndexError —
+    whenever the chunk is entirely new or ENDS AT THE LAST STORED MINUTE (the two ways the fast simulator calls it:
+    a fresh chunk, and the chunk whose minutes were already stored one by one while orders were matched).
+    A chunk that ends later than the stored series but overlaps it writes past the logical end of the array and is
+    left to C18 + correspondence. -/
+theorem addMultipleD_refines (a : DynArray) (h : Inv a) (hd : a.dropAt = none) (arr cs : List Candle)
+    (habs : a.abs = arr.map enc)
+    (hcase : ∀ last cl, arr.getLast? = some last → cs.getLast? = some cl →
+      (∃ c0, cs.head? = some c0 ∧ last.ts < c0.ts) ∨ cl.ts = last.ts) :
+    match Store.addMultiple1m arr cs with
+    | .ok out => ∃ a', addMultipleD a (cs.map enc) = .ok a' ∧ a'.abs = out.map enc ∧ Inv a' ∧ a'.dropAt = none
+    | .error e => addMultipleD a (cs.map enc) = .error e := by
+  have hdrop : ∀ d, a.dropAt = some d → 0 < d := by intro d hh; rw [hd] at hh; exact absurd hh (by simp)
+  have hlen : a.len = (arr.length : Int) := by rw [C18.refines_len a h, habs, List.length_map]
+  unfold addMultipleD Store.addMultiple1m
+  rw [List.head?_map, List.getLast?_map]
+  cases hc0 : cs.head? with
+  | none => simp
+  | some c0 =>
+    cases hcl : cs.getLast? with
+    | none => simp
+    | some cl =>
+      simp only [Option.map_some]
+      have hcne : cs ≠ [] := by intro h0; rw [h0] at hc0; simp at hc0
+      have hcpos : 0 < cs.length := List.length_pos_iff.mpr hcne
+      -- what a bulk append does
+      have happ : ∃ a', a.appendMultiple (cs.map enc) = .ok a' ∧ a'.abs = (arr ++ cs).map enc ∧ Inv a' ∧ a'.dropAt = none := by
+        obtain ⟨a', hok, ha, hi⟩ := C18.refines_appendMultiple a h (cs.map enc) hdrop (by intro hh; exact absurd hd hh)
+        refine ⟨a', hok, ?_, hi, by rw [appendMultiple_keeps_dropAt a a' _ hok, hd]⟩
+        rw [ha, hd, habs]; simp [Spec.listAppendAll]
+      cases hl : arr.getLast? with
+      | none =>
+        have harr : arr = [] := List.getLast?_eq_none_iff.mp hl
+        have h0 : a.len = 0 := by rw [hlen, harr]; rfl
+        simp only [h0, if_true]
+        exact happ
+      | some last =>
+        have hne : arr ≠ [] := by intro h0; rw [h0] at hl; simp at hl
+        have hpos : 0 < arr.length := List.length_pos_iff.mpr hne
+        have h0 : ¬ a.len = 0 := by rw [hlen]; omega
+        simp only [h0, if_false]
+        have hget : a.getItem (-1) = .ok (enc last) := by
+          rw [C18.refines_getItem a h (-1), getIdx_neg_one, habs, List.getLast?_map, hl]; rfl
+        rw [hget]
+        simp only [ts_enc, gt_iff_lt, ge_iff_le, Rat.intCast_lt_intCast, Rat.intCast_le_intCast]
+        by_cases hgt : last.ts < c0.ts
+        · simp only [hgt, if_true]; exact happ
+        · simp only [hgt, if_false]
+          have heq : cl.ts = last.ts := by
+            rcases hcase last cl hl hcl with ⟨c0', hh, hlt⟩ | hh
+            · rw [hc0] at hh; injection hh with hh; rw [← hh] at hlt; exact absurd hlt hgt
+            · exact hh
+          have hgetk : a.getItem (-((cs.map enc).length : Int)) = match Py.getIdx arr (-(cs.length : Int)) with
+              | some x => .ok (enc x)
+              | none => .error .IndexError := by
+            rw [C18.refines_getItem a h, habs, getIdx_map, List.length_map]
+            cases Py.getIdx arr (-(cs.length : Int)) <;> rfl
+          rw [hgetk]
+          cases hx : Py.getIdx arr (-(cs.length : Int)) with
+          | none => simp
+          | some x =>
+            simp only [ts_enc, Rat.intCast_le_intCast]
+            have hkle : cs.length ≤ arr.length := by
+              unfold Py.getIdx at hx
+              cases hn : Py.normIdx arr.length (-(cs.length : Int)) with
+              | none => rw [hn] at hx; exact absurd hx (by simp)
+              | some k =>
+                unfold Py.normIdx at hn
+                have h1 : ¬ (0 : Int) ≤ -(cs.length : Int) := by omega
+                have h2 : (-(-(cs.length : Int))).toNat = cs.length := by omega
+                simp only [h1, if_false, h2] at hn
+                by_contra hcon
+                simp [hcon] at hn
+            by_cases hcond : x.ts ≤ c0.ts ∧ last.ts ≤ cl.ts
+            · rw [if_pos hcond, if_pos hcond]
+              have hov : (cs.length : Int) - (cl.ts - last.ts) / 60000 = (cs.length : Int) := by
+                rw [heq]; simp
+              have hovD : ((cs.map enc).length : Int) - ((((cl.ts : Int) : Rat) - ((last.ts : Int) : Rat)) / 60000).floor
+                  = (cs.length : Int) := by
+                have hf : Rat.floor 0 = 0 := rfl
+                rw [heq, List.length_map]; simp [hf]
+              rw [hov]
+              have hnle : ¬ ((cs.length : Int) ≤ 0) := by omega
+              simp only [hnle, if_false, Int.toNat_natCast, List.take_length]
+              rw [hovD]
+              have hk1 : 1 ≤ (cs.map enc).length := by rw [List.length_map]; omega
+              have hka : (cs.map enc).length ≤ a.abs.length := by rw [habs, List.length_map, List.length_map]; exact hkle
+              have hset := C18.refines_setSlice a h (some (-(cs.length : Int))) none (cs.map enc) (by
+                have := slice_tail_length a.abs (cs.map enc).length hka hk1
+                rw [List.length_map] at this
+                rw [this, List.length_map])
+              obtain ⟨a', hok, hs, hi⟩ := hset
+              refine ⟨a', hok, ?_, hi, by rw [setSlice_keeps_dropAt a a' _ _ _ hok, hd]⟩
+              have hst := setSlice_tail a.abs (cs.map enc) (cs.map enc).length hka hk1 rfl
+              rw [List.length_map] at hst
+              rw [hst] at hs
+              injection hs with hs
+              rw [← hs, habs, List.length_map, List.map_append, List.map_take]
+            · rw [if_neg hcond, if_neg hcond]
+
 /-- non-vacuity: bucket 2 (so the array grows), a new minute, the last minute again, an older minute, a zero timestamp -/
 example : (match Jesse.StoreD.batchAddD (DynArray.new 2 6 none)
       ([⟨60000, 1, 2, 3, 0, 5⟩, ⟨120000, 2, 2, 2, 2, 1⟩, ⟨180000, 2, 3, 4, 1, 1⟩, ⟨180000, 2, 5, 6, 1, 2⟩,
         ⟨120000, 9, 9, 9, 9, 9⟩, ⟨0, 7, 7, 7, 7, 7⟩].map Jesse.StoreD.enc) with
     | .ok a => decide (a.abs = ([⟨60000, 1, 2, 3, 0, 5⟩, ⟨120000, 9, 9, 9, 9, 9⟩, ⟨180000, 2, 5, 6, 1, 2⟩] : List Candle).map Jesse.StoreD.enc)
+    | _ => false) = true := by decide +kernel
+
+/-- non-vacuity: a fresh chunk of three minutes (bulk append with growth), then the same three minutes again with new
+    values (the override that ends at the last stored minute) -/
+example : (match Jesse.StoreD.addMultipleD (DynArray.new 2 6 none)
+      ([⟨60000, 1, 2, 3, 0, 5⟩, ⟨120000, 2, 2, 2, 2, 1⟩, ⟨180000, 2, 3, 4, 1, 1⟩].map Jesse.StoreD.enc) with
+    | .ok a => (match Jesse.StoreD.addMultipleD a ([⟨120000, 7, 7, 7, 7, 7⟩, ⟨180000, 8, 8, 8, 8, 8⟩].map Jesse.StoreD.enc) with
+      | .ok b => decide (b.abs = ([⟨60000, 1, 2, 3, 0, 5⟩, ⟨120000, 7, 7, 7, 7, 7⟩, ⟨180000, 8, 8, 8, 8, 8⟩] : List Candle).map Jesse.StoreD.enc)
+      | _ => false)
     | _ => false) = true := by decide +kernel
 
 /-- the isolated backtest rejects input whose two leading candles are not one minute apart
